@@ -13,7 +13,8 @@ Inductive expr :=
 | EV (i : nat)
 | EAdd (a b : expr) | ESub (a b : expr) | EMul (a b : expr) | EDiv (a b : expr)
 | ENeg (a : expr)
-| EU (f : ufun) (a : expr).
+| EU (f : ufun) (a : expr)
+| ECut (a : expr).   (* the value of a with the differentiation graph cut: detach(), .data, computed under no_grad *)
 
 Definition ufun_R (f : ufun) (x : R) : R :=
   match f with
@@ -30,6 +31,7 @@ Fixpoint evalR (env : nat -> R) (e : expr) : R :=
   | EDiv a b => evalR env a / evalR env b
   | ENeg a => - evalR env a
   | EU f a => ufun_R f (evalR env a)
+  | ECut a => evalR env a
   end%R.
 
 Definition upd (env : nat -> R) (i : nat) (t : R) : nat -> R := fun j => if Nat.eqb i j then t else env j.
@@ -50,6 +52,7 @@ Fixpoint D (i : nat) (e : expr) : expr :=
   | EU Utanh a => EMul (ESub (EC 1) (EMul (EU Utanh a) (EU Utanh a))) (D i a)
   | EU Usin a => EMul (EU Ucos a) (D i a)
   | EU Ucos a => ENeg (EMul (EU Usin a) (D i a))
+  | ECut a => D i a        (* the derivative of the FUNCTION does not care about the graph *)
   end.
 
 Fixpoint defined (env : nat -> R) (e : expr) : Prop :=
@@ -60,6 +63,44 @@ Fixpoint defined (env : nat -> R) (e : expr) : Prop :=
   | ENeg a => defined env a
   | EU Usqrt a | EU Uln a => defined env a /\ (0 < evalR env a)%R
   | EU _ a => defined env a
+  | ECut a => defined env a
+  end.
+
+(* what reverse-mode automatic differentiation returns: the same rules, except that nothing flows through a cut *)
+Fixpoint G (i : nat) (e : expr) : expr :=
+  match e with
+  | EC _ => EC 0
+  | EV j => if Nat.eqb i j then EC 1 else EC 0
+  | EAdd a b => EAdd (G i a) (G i b)
+  | ESub a b => ESub (G i a) (G i b)
+  | EMul a b => EAdd (EMul (G i a) b) (EMul a (G i b))
+  | EDiv a b => EDiv (ESub (EMul (G i a) b) (EMul a (G i b))) (EMul b b)
+  | ENeg a => ENeg (G i a)
+  | EU Usqrt a => EDiv (G i a) (EMul (EC 2) (EU Usqrt a))
+  | EU Uexp a => EMul (EU Uexp a) (G i a)
+  | EU Uln a => EDiv (G i a) a
+  | EU Utanh a => EMul (ESub (EC 1) (EMul (EU Utanh a) (EU Utanh a))) (G i a)
+  | EU Usin a => EMul (EU Ucos a) (G i a)
+  | EU Ucos a => ENeg (EMul (EU Usin a) (G i a))
+  | ECut _ => EC 0
+  end.
+
+(* does the expression mention a variable at all *)
+Fixpoint has_var (e : expr) : bool :=
+  match e with
+  | EC _ => false
+  | EV _ => true
+  | EAdd a b | ESub a b | EMul a b | EDiv a b => has_var a || has_var b
+  | ENeg a | EU _ a | ECut a => has_var a
+  end.
+
+(* no path from a variable to the output crosses a cut *)
+Fixpoint cutfree (e : expr) : bool :=
+  match e with
+  | EC _ | EV _ => true
+  | EAdd a b | ESub a b | EMul a b | EDiv a b => cutfree a && cutfree b
+  | ENeg a | EU _ a => cutfree a
+  | ECut a => negb (has_var a)
   end.
 
 (* gradient of a list of outputs with respect to a list of variables *)
@@ -95,6 +136,7 @@ Fixpoint evalQ (o : oracle) (env : list Qc) (e : expr) : option Qc :=
                   (fun x y => if Qc_eq_bool y 0%Qc then None else Some (x / y)%Qc)
   | ENeg a => match evalQ o env a with Some x => Some (- x)%Qc | None => None end
   | EU f a => match evalQ o env a with Some x => lookup o f x | None => None end
+  | ECut a => evalQ o env a
   end.
 
 (* the rational fragment: no transcendental node *)
@@ -102,7 +144,7 @@ Fixpoint rational (e : expr) : bool :=
   match e with
   | EC _ | EV _ => true
   | EAdd a b | ESub a b | EMul a b | EDiv a b => rational a && rational b
-  | ENeg a => rational a
+  | ENeg a | ECut a => rational a
   | EU _ _ => false
   end.
 
@@ -110,5 +152,5 @@ Fixpoint esize (e : expr) : nat :=
   match e with
   | EC _ | EV _ => 1
   | EAdd a b | ESub a b | EMul a b | EDiv a b => S (esize a + esize b)
-  | ENeg a | EU _ a => S (esize a)
+  | ENeg a | EU _ a | ECut a => S (esize a)
   end.
